@@ -6,7 +6,7 @@
                 b = hello sent from the JSON description of orig (names from the value-indexed tables) *)
 EXTENDS Dicttls, Json
 Trace == ndJsonDeserialize("c32_trace.ndjson")
-VARIABLES l, rej, ncmp
+VARIABLES l, rej, ncmp, nexp
 DictIdx == {k \in DOMAIN Trace : Trace[k].ev = "Dict"}
 Tab(name) == LET K == {k \in DictIdx : Trace[k].table = name}
              IN IF K = {} THEN {} ELSE Values(Trace[CHOOSE k \in K : TRUE].vi)
@@ -15,7 +15,12 @@ T == [CipherSuite |-> Tab("CipherSuite"), CompMeth |-> Tab("CompMeth"), ExtType 
       SignatureScheme |-> Tab("SignatureScheme"), CertificateCompressionAlgorithm |-> Tab("CertificateCompressionAlgorithm"),
       PSKKeyExchangeMode |-> Tab("PSKKeyExchangeMode")]
 
-Init == l = 1 /\ rej = <<>> /\ ncmp = 0
+Init == l = 1 /\ rej = <<>> /\ ncmp = 0 /\ nexp = 0
+\* a compared hello whose padding extension was given an explicit length that the BoringSSL rule (TLSWire!BoringPadBody,
+\* applied to the length of the hello without its padding extension) would not produce: only such documents show that
+\* an explicit "len" of the JSON description reaches the wire
+ExplicitPad(ev) == /\ ev.ev = "JsonHello" /\ ev.padlen > 0 /\ ParseHello(ev.orig).ok /\ Describable(ParseHello(ev.orig), T)
+                   /\ BoringPadBody(Len(ev.orig) - (4 + ev.padlen)) # ev.padlen
 Compared(ev) == ev.ev = "JsonHello" /\ ParseHello(ev.orig).ok /\ Describable(ParseHello(ev.orig), T)
 Explained(ev) ==
   CASE ev.ev = "Dict" -> RoundTripOK(ev.vi, ev.ni) /\ IsFunction(ev.vi, "v") /\ IsFunction(ev.ni, "n")
@@ -37,16 +42,20 @@ Why(ev) ==
            ELSE IF ev.renderr # "" THEN "not-rendered-although-every-code-point-has-a-name"
            ELSE IF ev.jsonerr # "" THEN "json-import-failed"
            ELSE IF ev.rawerr # "" THEN "raw-import-failed"
-           ELSE WhyDiffer(ev.a, ev.b)>>
+           ELSE WhyDiffer(ev.a, ev.b),
+           ev.padlen>>
     [] OTHER -> <<"unknown-event">>
 \* (X = TRUE): evaluate the judgement as a value, never as an action formula
 Good == l <= Len(Trace) /\ (Explained(Trace[l]) = TRUE) /\ l' = l + 1 /\ UNCHANGED rej
-        /\ ncmp' = IF Compared(Trace[l]) THEN ncmp + 1 ELSE ncmp
+        /\ ncmp' = (IF Compared(Trace[l]) THEN ncmp + 1 ELSE ncmp)
+        /\ nexp' = (IF ExplicitPad(Trace[l]) THEN nexp + 1 ELSE nexp)
 Skip == l <= Len(Trace) /\ (Explained(Trace[l]) = FALSE) /\ l' = l + 1 /\ rej' = Append(rej, <<l, Why(Trace[l])>>)
-        /\ ncmp' = IF Compared(Trace[l]) THEN ncmp + 1 ELSE ncmp
+        /\ ncmp' = (IF Compared(Trace[l]) THEN ncmp + 1 ELSE ncmp)
+        /\ nexp' = (IF ExplicitPad(Trace[l]) THEN nexp + 1 ELSE nexp)
 Next == Good \/ Skip
 Report == (l = Len(Trace) + 1) =>
             /\ PrintT(<<"DONE", l - 1>>)
             /\ PrintT(<<"COMPARED", ncmp>>)
+            /\ PrintT(<<"EXPLICITPAD", nexp>>)
             /\ \A i \in DOMAIN rej : PrintT(<<"REJ", ToJson(rej[i])>>)
 =============================================================================
